@@ -365,7 +365,8 @@ def entryTail (e : SigEntry) : String := e.comp ++ "-" ++ portName e.port
 
 theorem asgN_sig (pfx : String) (lens : List (String × Nat)) (x : String × List SigEntry) :
     asgN (sigBlock pfx lens x) =
-      ("_Self" :: (dedupEntries x.2).map entryTail).map (fun t => pfx ++ (x.1 ++ "-" ++ t)) := by
+      ("_Self" :: (dedupEntries x.2).map (fun e => entryTail e ++ rcSuffix x.2 e)).map
+        (fun t => pfx ++ (x.1 ++ "-" ++ t)) := by
   simp only [asgN, sigBlock, blockDoc, assignLines_signalDoc, List.map_cons, List.map_map, self_eq]
   congr 1
   apply List.map_congr_left
@@ -510,6 +511,18 @@ theorem dedup_loaded {s : SSrc} {pfx : String} {sg : List (String × List SigEnt
   rw [e] at h
   exact List.Pairwise.of_map (·.1) (fun a b hne hab => hne (by rw [hab])) h
 
+/-- … and no connector is renamed (repair F17b): a port is bound to a signal in one orientation only, so
+    `Sys.rcSuffix` is empty for every entry -/
+theorem rcSuffix_loaded {s : SSrc} {pfx : String} {sg : List (String × List SigEntry)} {lens : List (String × Nat)}
+    {comps : List (String × Inst)} (hQ : QD s) (hinv : SysInv (instNames s.stmts) (sigNames s.stmts) sg lens comps)
+    (hsub : ∀ c ∈ comps, Loaded PD QD (pfx ++ c.1 ++ "-") c.2) : ∀ x ∈ sg, ∀ e ∈ x.2, rcSuffix x.2 e = "" := by
+  intro x hx e he
+  refine Des.rcSuffix_of_consistent ?_ he
+  intro e1 he1 e2 he2 hc
+  have : e1 = e2 := Des.nodup_map_inj (entryTails_nodup hQ hinv hsub x hx) he1 he2
+    (by rw [← connName_eq_entryTail, ← connName_eq_entryTail]; exact hc)
+  rw [this]
+
 theorem asg_names_ok {pfx : String} {inst : Inst} (hL : Loaded PD QD pfx inst) :
     ((blocksInst inst).flatMap asgN).Nodup ∧ ∀ x ∈ (blocksInst inst).flatMap asgN, HasPfx pfx x := by
   refine names_ok asgN ?_ ?_ hL
@@ -519,9 +532,11 @@ theorem asg_names_ok {pfx : String} {inst : Inst} (hL : Loaded PD QD pfx inst) :
     exact ⟨nodup_pfx_map ci.wf.structNames _, hasPfx_map _ _⟩
   · intro s pfx sg lens comps hQ hinv hsub
     have hsd : ∀ x ∈ sg, NoDash x.1 ∧ x.1 ∉ instNames s.stmts := fun x hx => SysNamesOk.sig hQ _ (hinv.sigIn x hx)
-    have htails : ∀ x ∈ sg, ("_Self" :: (dedupEntries x.2).map entryTail).Nodup := by
+    have htails : ∀ x ∈ sg, ("_Self" :: (dedupEntries x.2).map (fun e => entryTail e ++ rcSuffix x.2 e)).Nodup := by
       intro x hx
-      rw [dedup_loaded hQ hinv hsub x hx, List.nodup_cons]
+      have hmap : x.2.map (fun e => entryTail e ++ rcSuffix x.2 e) = x.2.map entryTail :=
+        List.map_congr_left (fun e he => by rw [rcSuffix_loaded hQ hinv hsub x hx e he, String.append_empty])
+      rw [dedup_loaded hQ hinv hsub x hx, hmap, List.nodup_cons]
       refine ⟨?_, entryTails_nodup hQ hinv hsub x hx⟩
       intro hm
       obtain ⟨e, _, he⟩ := List.mem_map.mp hm
@@ -727,46 +742,42 @@ theorem comp_blocksOk {src : Comp.Src} {n : Nat} {pfx : String} {a : Nat} {st : 
 
 /-! ### a connector is written once (repair F17) -/
 
-theorem self_ne_conn (pfx sg : String) (e : SigEntry) :
-    pfx ++ sg ++ "-_Self" ≠ pfx ++ sg ++ "-" ++ (portItems pfx e).1 := by
+theorem self_ne_conn (pfx sg : String) (es : List SigEntry) (e : SigEntry) :
+    pfx ++ sg ++ "-_Self" ≠ pfx ++ sg ++ "-" ++ (portItems pfx e).1 ++ rcSuffix es e := by
   intro h
   have h0 : pfx ++ sg ++ "-_Self" = pfx ++ sg ++ "-" ++ "_Self" := by
     rw [String.append_assoc (s₁ := pfx ++ sg)]; rfl
-  rw [h0, String.append_right_inj, portItems_fst] at h
+  rw [h0, String.append_assoc (s₁ := pfx ++ sg ++ "-"), String.append_right_inj, portItems_fst,
+    String.append_assoc] at h
   exact dash_ne (by decide : NoDash "_Self") h.symm
 
-/-- the structure names of one signal's connector block are pairwise distinct exactly when no two entries of the
-    signal share a connector name with different orientation -/
+/-- the structure names of one signal's connector block (`S-_Self`, `S-<instance>-<port>` and, for the complementary
+    binding of a port also bound plainly, `S-<instance>-<port>-_rc`) are pairwise distinct exactly when no port bound
+    in both orientations has a sibling entry whose own connector name is `<instance>-<port>-_rc` -/
 theorem signal_structNames_nodup_iff (pfx sg : String) (len : Nat) (es : List SigEntry) :
     ((structLines (signalDoc pfx sg len es)).map (·.1)).Nodup ↔
-      ∀ e ∈ es, ∀ e' ∈ es, e.connName = e'.connName → e.wc = e'.wc := by
-  rw [structLines_signalDoc, List.map_cons, List.map_map, List.nodup_cons]
+      ∀ e ∈ es, ∀ e₀ ∈ es, ∀ e' ∈ es, e.wc = true → e₀.wc = false → e₀.connName = e.connName →
+        e'.connName ≠ e.connName ++ "-_rc" := by
+  rw [structLines_signalDoc, List.map_cons, List.map_map, List.nodup_cons, ← Des.connTails_nodup_iff]
+  have hmap : (dedupEntries es).map ((fun x => x.1) ∘ fun e =>
+        (pfx ++ sg ++ "-" ++ (portItems pfx e).1 ++ rcSuffix es e, duplex len)) =
+      ((dedupEntries es).map (Des.connTail es)).map (fun t => pfx ++ sg ++ "-" ++ t) := by
+    rw [List.map_map]
+    apply List.map_congr_left
+    intro e _
+    simp only [Function.comp, portItems_fst_connName, Des.connTail, String.append_assoc]
+  rw [hmap]
   constructor
-  · rintro ⟨_, hn⟩ e he e' he' hc
-    obtain ⟨k, hk, hk1, hk2⟩ := dedupEntries_cover he
-    obtain ⟨k', hk', hk1', hk2'⟩ := dedupEntries_cover he'
-    have : k = k' := Des.nodup_map_inj hn hk hk' (by
-      simp only [Function.comp, portItems_fst_connName, hk1, hk1', hc])
-    rw [← hk2, ← hk2', this]
+  · rintro ⟨_, hn⟩
+    exact List.Pairwise.of_map _ (fun a b hne hab => hne (by rw [hab])) hn
   · intro h
-    refine ⟨?_, ?_⟩
-    · intro hm
-      obtain ⟨e, _, he⟩ := List.mem_map.1 hm
-      exact self_ne_conn pfx sg e he.symm
-    · have hk := dedupEntries_keys_nodup es
-      have : (dedupEntries es).map ((fun x => x.1) ∘ fun e => (pfx ++ sg ++ "-" ++ (portItems pfx e).1, duplex len)) =
-          ((dedupEntries es).map dupKey).map (fun k => pfx ++ sg ++ "-" ++ k.1) := by
-        rw [List.map_map]
-        apply List.map_congr_left
-        intro e _
-        simp only [Function.comp, portItems_fst_connName, dupKey]
-      rw [this]
-      refine nodup_map_inj_on ?_ hk
-      intro k1 hk1 k2 hk2 heq
-      obtain ⟨e1, he1, rfl⟩ := List.mem_map.1 hk1
-      obtain ⟨e2, he2, rfl⟩ := List.mem_map.1 hk2
-      have hc : e1.connName = e2.connName := (String.append_right_inj _).1 heq
-      exact Prod.ext hc (h e1 (dedupEntries_sub he1) e2 (dedupEntries_sub he2) hc)
+    refine ⟨?_, nodup_pfx_map h _⟩
+    intro hm
+    obtain ⟨t, ht, he⟩ := List.mem_map.1 hm
+    obtain ⟨e, _, rfl⟩ := List.mem_map.1 ht
+    have := self_ne_conn pfx sg es e
+    simp only [portItems_fst_connName, Des.connTail, String.append_assoc] at this he
+    exact this he.symm
 
 /-! ### M2 for one component -/
 
